@@ -26,7 +26,7 @@ ASSUMPTIONS = ["freshness is judged on the arrival sequence (V, T) with T the el
                "gating are: each delivery fresher than the previous one, and the last delivery equals the reference's last accepted",
                "the async iterator is documented as lossy: its deliveries must be a sub-sequence of the callback deliveries "
                "ending with the same element"]
-EXPECTED_PROBES = ["reordered", "duplicate", "wraparound", "near_2_23", "time_rule_plus", "time_rule_minus", "final_response",
+EXPECTED_PROBES = ["application_keeps_only_the_observation", "garbage_collected_mid_run", "reordered", "duplicate", "wraparound", "near_2_23", "time_rule_plus", "time_rule_minus", "final_response",
                    "final_error_code", "icmp_end", "not_observable", "late_notification_con", "late_notification_non",
                    "iterator_busy_at_end", "blockwise_wrapper", "companion_observation", "peer_request_under_observation_token", "wall_clock_step",
                    "iteration_started_late", "iteration_resumed_with_new_loop", "iterator_wait_timed_out",
